@@ -445,3 +445,52 @@ def arrays_tol(**inp):
     ok = bool(tol == tol and tol > 0)
     return {"reproduced": not ok, "observed": {"arrays": [a.tolist() for a in arrs], "tolerance": float(tol)},
             "required": "a defined positive tolerance"}
+
+
+# ---- C03: the finite filter of Problem.__call__ on a scripted sequence of (objective, violation) pairs ---------------------------------
+def _dominated(fn, mn, f, m):
+    """is the retained entry (f, m) to be discarded when (fn, mn) enters the filter?  (dominance as documented: a fully defined newcomer
+    discards every entry with a NaN and every entry it is at least as good as in both values; a newcomer with a NaN objective /
+    violation only discards entries with a NaN in the same place)"""
+    if fn != fn:
+        return f != f
+    if mn != mn:
+        return m != m
+    return f != f or m != m or (fn <= f and mn <= m)
+
+
+def finite_filter(seq=None, filter_size=2, **_):
+    """Feed the scripted pairs through the real Problem and check after every call: ALIGN, BOUND, entries are evaluated pairs in
+    evaluation order, and EVICT: an entry that the newcomer does not dominate is dropped only if the filter is full afterwards."""
+    from scipy.optimize import Bounds, NonlinearConstraint
+    from cobyqa.problem import ObjectiveFunction, BoundConstraints, LinearConstraints, NonlinearConstraints, Problem
+    seq = [(F(a), F(b)) for a, b in seq]
+    state = {"k": 0}
+    obj = ObjectiveFunction(lambda x: seq[state["k"]][0], False, False)
+    nlc = NonlinearConstraints([NonlinearConstraint(lambda x: np.array([seq[state["k"]][1]]), -np.inf, 0.0)], False, False)
+    pb = Problem(obj, np.zeros(1), BoundConstraints(Bounds([-np.inf], [np.inf])), LinearConstraints([], 1, False), nlc, None, 1e-8, False, False, 1,
+                 int(filter_size), False)
+    same = lambda a, b: a == b or (a != a and b != b)
+    with np.errstate(all="ignore"):
+        for k, (f, m) in enumerate(seq):
+            state["k"] = k
+            before = list(zip([float(v) for v in pb._fun_filter], [float(v) for v in pb._maxcv_filter], [float(x[0]) for x in pb._x_filter]))
+            pb(np.array([float(k)]))
+            mt = max(m, 0.0) if m == m else m                      # the violation of the scripted constraint value
+            after = list(zip([float(v) for v in pb._fun_filter], [float(v) for v in pb._maxcv_filter], [float(x[0]) for x in pb._x_filter]))
+            obs = {"call": k, "pair": [f, mt], "filter_before": before, "filter_after": after, "filter_size": filter_size}
+            if not (len(pb._fun_filter) == len(pb._maxcv_filter) == len(pb._x_filter) and 1 <= len(after) <= filter_size):
+                return {"reproduced": True, "observed": obs, "required": "aligned lists, 1 <= len <= filter_size"}
+            ids = [int(e[2]) for e in after]
+            if ids != sorted(set(ids)) or any(not (same(e[0], seq[int(e[2])][0])) for e in after):
+                return {"reproduced": True, "observed": obs, "required": "entries are evaluated pairs, in evaluation order"}
+            included = any(int(e[2]) == k for e in after)
+            if included:
+                lost = [e for e in before if not any(int(a[2]) == int(e[2]) for a in after) and not _dominated(f, mt, e[0], e[1])]
+                if lost and len(after) < filter_size:
+                    obs["lost_although_not_dominated"] = lost
+                    return {"reproduced": True, "observed": obs,
+                            "required": "an entry the newcomer does not dominate is evicted only when the filter is full afterwards"}
+            elif [int(e[2]) for e in after] != [int(e[2]) for e in before]:
+                return {"reproduced": True, "observed": obs, "required": "a rejected point leaves the filter unchanged"}
+    return {"reproduced": False}
